@@ -522,3 +522,355 @@ Proof.
   rewrite unquote_ascii by exact H.
   apply dec_scalars, unquote_impl_bytes, H.
 Qed.
+
+(* ------------------------------------------------------------------------------------------ *)
+(** * Status -> trailers -> status *)
+
+Lemma zlist_eqb_eq a b : zlist_eqb a b = true -> a = b.
+Proof.
+  revert b. induction a as [|x a IH]; intros [|y b] H; try discriminate; [reflexivity|].
+  cbn [zlist_eqb] in H. apply andb_true_iff in H as [Hx Hr].
+  apply Z.eqb_eq in Hx. subst y. rewrite (IH b Hr). reflexivity.
+Qed.
+
+(* the three header names are pairwise different *)
+Lemma keys_distinct :
+  zlist_eqb grpc_status_key grpc_status_key = true /\
+  zlist_eqb grpc_message_key grpc_message_key = true /\
+  zlist_eqb status_details_key status_details_key = true /\
+  zlist_eqb grpc_status_key grpc_message_key = false /\
+  zlist_eqb grpc_status_key status_details_key = false /\
+  zlist_eqb grpc_message_key grpc_status_key = false /\
+  zlist_eqb grpc_message_key status_details_key = false /\
+  zlist_eqb status_details_key grpc_status_key = false /\
+  zlist_eqb status_details_key grpc_message_key = false.
+Proof. vm_compute. repeat split; reflexivity. Qed.
+
+Lemma keys_ascii :
+  ascii_ok grpc_status_key = true /\ ascii_ok grpc_message_key = true /\
+  ascii_ok status_details_key = true.
+Proof. vm_compute. repeat split; reflexivity. Qed.
+
+Lemma status_ok_is_0 : status_ok = 0.
+Proof. vm_compute; reflexivity. Qed.
+
+(* str(status.value) is ASCII and int() reads it back: checked on every member of Status *)
+Definition decimal_fine (n : Z) : bool :=
+  ascii_ok (decimal n) && match py_int (decimal n) with Some m => m =? n | None => false end.
+
+Lemma decimal_members : forallb decimal_fine status_values = true.
+Proof. vm_compute; reflexivity. Qed.
+
+Lemma decimal_member st :
+  In st status_values -> ascii_ok (decimal st) = true /\ py_int (decimal st) = Some st.
+Proof.
+  intros Hin. pose proof decimal_members as F. rewrite forallb_forall in F.
+  specialize (F st Hin). unfold decimal_fine in F. apply andb_true_iff in F as [Ha Hp].
+  split; [exact Ha|].
+  destruct (py_int (decimal st)) as [m|]; [|discriminate].
+  apply Z.eqb_eq in Hp. subst m. reflexivity.
+Qed.
+
+Lemma in_mem_z b l : In b l -> mem_z b l = true.
+Proof.
+  intros Hin. unfold mem_z. apply existsb_exists. exists b. split; [exact Hin | apply Z.eqb_refl].
+Qed.
+
+(* the status part of the trailers: three optional entries in a fixed order *)
+Definition shape (sv : list Z) (mv dv : option (list Z)) : headers :=
+  (grpc_status_key, sv)
+  :: match mv with Some m => [(grpc_message_key, m)] | None => [] end
+  ++ match dv with Some d => [(status_details_key, d)] | None => [] end.
+
+Lemma shape_lookup sv mv dv :
+  assoc_last grpc_status_key (shape sv mv dv) = Some sv /\
+  assoc_last grpc_message_key (shape sv mv dv) = mv /\
+  assoc_last status_details_key (shape sv mv dv) = dv.
+Proof.
+  destruct keys_distinct as (E11 & E22 & E33 & E12 & E13 & E21 & E23 & E31 & E32).
+  unfold shape. destruct mv as [m|], dv as [d|]; cbn [app assoc_last];
+    rewrite ?E11, ?E22, ?E33, ?E12, ?E13, ?E21, ?E23, ?E31, ?E32; repeat split; reflexivity.
+Qed.
+
+Lemma status_trailers_shape sc st msg det :
+  status_trailers sc st msg det =
+  match msg with
+  | None => Some (shape (decimal st) None
+                    (match det with Some b => if sc then Some (encode_bin_value b) else None
+                                  | None => None end))
+  | Some m => match encode_grpc_message m with
+              | Some e => Some (shape (decimal st) (Some e)
+                                  (match det with Some b => if sc then Some (encode_bin_value b) else None
+                                                | None => None end))
+              | None => None
+              end
+  end.
+Proof.
+  unfold status_trailers, shape.
+  destruct msg as [m|]; [destruct (encode_grpc_message m)|]; destruct det as [b|]; try destruct sc;
+    reflexivity.
+Qed.
+
+(* headers around the status part that say nothing about the status do not matter *)
+Lemma assoc_last_app k a b :
+  assoc_last k (a ++ b) = match assoc_last k b with Some v => Some v | None => assoc_last k a end.
+Proof.
+  induction a as [|[k' v] a IH]; cbn [app assoc_last].
+  - destruct (assoc_last k b); reflexivity.
+  - rewrite IH. destruct (assoc_last k b); reflexivity.
+Qed.
+
+Lemma assoc_last_free k hs :
+  status_key k = true -> status_free hs = true -> assoc_last k hs = None.
+Proof.
+  intros Hk. induction hs as [|[k' v] hs IH]; intros Hf; [reflexivity|].
+  unfold status_free in Hf. cbn [forallb fst] in Hf. apply andb_true_iff in Hf as [Hk' Hf].
+  cbn [assoc_last]. rewrite (IH Hf).
+  destruct (zlist_eqb k k') eqn:E; [|reflexivity].
+  apply zlist_eqb_eq in E. subst k'. rewrite Hk in Hk'. discriminate.
+Qed.
+
+Lemma assoc_last_around k pre mid post :
+  status_key k = true -> status_free pre = true -> status_free post = true ->
+  assoc_last k (pre ++ mid ++ post) = assoc_last k mid.
+Proof.
+  intros Hk Hpre Hpost. rewrite !assoc_last_app.
+  rewrite (assoc_last_free k post Hk Hpost), (assoc_last_free k pre Hk Hpre).
+  destruct (assoc_last k mid); reflexivity.
+Qed.
+
+Lemma status_keys :
+  status_key grpc_status_key = true /\ status_key grpc_message_key = true /\
+  status_key status_details_key = true.
+Proof. vm_compute. repeat split; reflexivity. Qed.
+
+Lemma process_around cc pre mid post :
+  status_free pre = true -> status_free post = true ->
+  process_grpc_status cc (pre ++ mid ++ post) = process_grpc_status cc mid.
+Proof.
+  intros Hpre Hpost. destruct status_keys as (K1 & K2 & K3). unfold process_grpc_status.
+  rewrite !(assoc_last_around _ pre mid post) by assumption. reflexivity.
+Qed.
+
+(* user metadata that encode_metadata accepted never carries one of the three names (C13) *)
+Lemma grpc_key_reserved k : status_key k = true -> reserved k = true.
+Proof.
+  unfold status_key. intros H.
+  assert (k = grpc_status_key \/ k = grpc_message_key \/ k = status_details_key) as Hk.
+  { apply orb_true_iff in H as [H|H]; [apply orb_true_iff in H as [H|H]|];
+      apply zlist_eqb_eq in H; subst k; auto. }
+  destruct Hk as [->|[->| ->]]; vm_compute; reflexivity.
+Qed.
+
+Lemma wire_safe_status_free hs : forallb wire_safe hs = true -> status_free hs = true.
+Proof.
+  induction hs as [|[k v] hs IH]; intros H; [reflexivity|].
+  cbn [forallb] in H. apply andb_true_iff in H as [Hkv Hr].
+  unfold status_free. cbn [forallb fst]. fold (status_free hs). rewrite (IH Hr).
+  destruct (status_key k) eqn:E; [|reflexivity].
+  apply grpc_key_reserved in E. unfold wire_safe in Hkv. rewrite E in Hkv.
+  rewrite andb_false_r in Hkv. discriminate.
+Qed.
+
+(* the core computation of the client on the status part *)
+Lemma process_shape cc st mv dv :
+  In st status_values -> st <> status_ok ->
+  process_grpc_status cc (shape (decimal st) mv dv) =
+  CStatus st (match mv with Some m => Some (decode_grpc_message m) | None => None end)
+             (if cc then match dv with Some d => details_bytes d | None => None end else None).
+Proof.
+  intros Hin Hnok. destruct (decimal_member st Hin) as [Hascii Hint].
+  destruct (shape_lookup (decimal st) mv dv) as (L1 & L2 & L3).
+  unfold process_grpc_status. rewrite L1, L2, L3, Hascii. cbn [negb]. rewrite Hint.
+  unfold is_status_member. rewrite (in_mem_z st status_values Hin). cbn [negb].
+  destruct (st =? status_ok) eqn:E; [apply Z.eqb_eq in E; contradiction|].
+  reflexivity.
+Qed.
+
+Lemma details_bytes_roundtrip b :
+  bytes_ok b = true -> details_bytes (encode_bin_value b) = Some b.
+Proof.
+  intros Hok. unfold details_bytes. rewrite encode_bin_value_ascii by exact Hok.
+  apply b64_roundtrip, Hok.
+Qed.
+
+(* THE round trip: every member of Status but OK, every message without lone surrogates
+   (None and "" included, and kept apart), every details byte string, with or without a codec
+   on either side *)
+Lemma status_roundtrip :
+  forall sc cc st msg det,
+  In st status_values -> st <> status_ok -> msg_valid msg = true -> det_valid det = true ->
+  exists hs, status_trailers sc st msg det = Some hs /\
+             process_grpc_status cc hs = CStatus st msg (if sc && cc then det else None).
+Proof.
+  intros sc cc st msg det Hin Hnok Hmsg Hdet.
+  rewrite status_trailers_shape.
+  destruct msg as [m|].
+  - cbn [msg_valid] in Hmsg. destruct (message_roundtrip m Hmsg) as (e & He & Hback).
+    rewrite He. eexists. split; [reflexivity|].
+    rewrite process_shape by assumption. rewrite Hback.
+    destruct det as [b|]; [|destruct sc, cc; reflexivity].
+    cbn [det_valid] in Hdet.
+    destruct sc, cc; cbn [andb]; rewrite ?details_bytes_roundtrip by exact Hdet; reflexivity.
+  - eexists. split; [reflexivity|].
+    rewrite process_shape by assumption.
+    destruct det as [b|]; [|destruct sc, cc; reflexivity].
+    cbn [det_valid] in Hdet.
+    destruct sc, cc; cbn [andb]; rewrite ?details_bytes_roundtrip by exact Hdet; reflexivity.
+Qed.
+
+(* ... and the same inside a complete trailers / trailers-only block: protocol headers in front,
+   the user's trailing metadata (as encode_metadata emitted it, C13) behind *)
+Lemma status_roundtrip_in_block :
+  forall st msg det pre md hmd,
+  In st status_values -> st <> status_ok -> msg_valid msg = true -> det_valid det = true ->
+  status_free pre = true -> md_typed md = true -> encode_metadata md = Ok hmd ->
+  exists hs, status_trailers true st msg det = Some hs /\
+             process_grpc_status true (pre ++ hs ++ hmd) = CStatus st msg det.
+Proof.
+  intros st msg det pre md hmd Hin Hnok Hmsg Hdet Hpre Htyped Henc.
+  destruct (status_roundtrip true true st msg det Hin Hnok Hmsg Hdet) as (hs & Hs & Hp).
+  exists hs. split; [exact Hs|].
+  rewrite process_around; [exact Hp | exact Hpre |].
+  apply wire_safe_status_free. apply (encoded_is_wire_safe md hmd Htyped Henc).
+Qed.
+
+(* the wire form of the whole status part is ASCII, so the receiving h2 does not refuse it *)
+Lemma forallb_printable_ascii_ok l : forallb printable l = true -> ascii_ok l = true.
+Proof. intros H. apply printable_is_ascii in H. exact H. Qed.
+
+Lemma status_trailers_ascii :
+  forall sc st msg det hs,
+  In st status_values -> det_valid det = true ->
+  status_trailers sc st msg det = Some hs -> headers_ascii hs = true.
+Proof.
+  intros sc st msg det hs Hin Hdet H. rewrite status_trailers_shape in H.
+  destruct keys_ascii as (A1 & A2 & A3). destruct (decimal_member st Hin) as [Hascii _].
+  assert (Hd : forall b, det = Some b -> ascii_ok (encode_bin_value b) = true).
+  { intros b ->. apply encode_bin_value_ascii. exact Hdet. }
+  destruct msg as [m|].
+  - destruct (encode_grpc_message m) as [e|] eqn:He; [|discriminate].
+    apply message_wire_safe in He as [Hp _]. apply forallb_printable_ascii_ok in Hp.
+    injection H as <-. unfold shape, headers_ascii.
+    destruct det as [b|]; [destruct sc|]; cbn [app forallb fst snd];
+      rewrite ?A1, ?A2, ?A3, ?Hascii, ?Hp, ?(Hd _ eq_refl); reflexivity.
+  - injection H as <-. unfold shape, headers_ascii.
+    destruct det as [b|]; [destruct sc|]; cbn [app forallb fst snd];
+      rewrite ?A1, ?A2, ?A3, ?Hascii, ?(Hd _ eq_refl); reflexivity.
+Qed.
+
+Lemma status_roundtrip_through_h2 :
+  forall st msg det,
+  In st status_values -> st <> status_ok -> msg_valid msg = true -> det_valid det = true ->
+  exists hs, status_trailers true st msg det = Some hs /\
+             client_receive true hs = RStatus (CStatus st msg det).
+Proof.
+  intros st msg det Hin Hnok Hmsg Hdet.
+  destruct (status_roundtrip true true st msg det Hin Hnok Hmsg Hdet) as (hs & Hs & Hp).
+  exists hs. split; [exact Hs|].
+  pose proof (status_trailers_ascii true st msg det hs Hin Hdet Hs) as Ha.
+  unfold client_receive, h2_decode_headers. unfold headers_ascii in Ha. rewrite Ha, Hp. reflexivity.
+Qed.
+
+(* status OK is not an error: whatever message / details were sent with it, the client keeps
+   none of it and raises nothing *)
+Lemma ok_status_carries_nothing :
+  forall sc cc msg det, msg_valid msg = true ->
+  In status_ok status_values /\
+  exists hs, status_trailers sc status_ok msg det = Some hs /\
+             process_grpc_status cc hs = CStatus status_ok None None /\
+             raises_grpc_error (CStatus status_ok None None) = false.
+Proof.
+  intros sc cc msg det Hmsg.
+  assert (Hin : In status_ok status_values) by (vm_compute; auto).
+  split; [exact Hin|].
+  rewrite status_trailers_shape.
+  assert (Hgen : forall mv dv, process_grpc_status cc (shape (decimal status_ok) mv dv)
+                               = CStatus status_ok None None).
+  { intros mv dv. destruct (decimal_member status_ok Hin) as [Hascii Hint].
+    destruct (shape_lookup (decimal status_ok) mv dv) as (L1 & _ & _).
+    unfold process_grpc_status. rewrite L1, Hascii. cbn [negb]. rewrite Hint.
+    unfold is_status_member. rewrite (in_mem_z _ _ Hin). cbn [negb].
+    rewrite Z.eqb_refl. reflexivity. }
+  destruct msg as [m|].
+  - cbn [msg_valid] in Hmsg. destruct (message_roundtrip m Hmsg) as (e & He & _). rewrite He.
+    eexists. split; [reflexivity|]. split; [apply Hgen|].
+    unfold raises_grpc_error. rewrite Z.eqb_refl. reflexivity.
+  - eexists. split; [reflexivity|]. split; [apply Hgen|].
+    unfold raises_grpc_error. rewrite Z.eqb_refl. reflexivity.
+Qed.
+
+(* hence the statement "for EVERY status code the client sees (status, message, details)" is
+   false of the code as it is; the witness is replayed on the implementation by the driver *)
+Lemma status_roundtrip_all_refuted :
+  exists st msg det,
+    In st status_values /\ msg_valid msg = true /\ det_valid det = true /\
+    exists hs, status_trailers true st msg det = Some hs /\
+               process_grpc_status true hs <> CStatus st msg det.
+Proof.
+  exists 0, (Some [120]), None. split; [vm_compute; auto|]. split; [reflexivity|].
+  split; [reflexivity|]. eexists. split; [vm_compute; reflexivity|].
+  vm_compute. discriminate.
+Qed.
+
+(* a message with a lone surrogate never reaches the wire: UnicodeEncodeError on the server *)
+Lemma surrogate_message_error :
+  forall sc st m det, scalars_ok m = false -> status_trailers sc st (Some m) det = None.
+Proof.
+  intros sc st m det H. unfold status_trailers.
+  destruct (encode_msg_error_iff m) as [_ He]. rewrite (He H). reflexivity.
+Qed.
+
+(* ---- receiving ---- *)
+
+(* every trailers block made of ASCII bytes gets an answer from the client ... *)
+Lemma receive_total_partial :
+  forall cc raw, headers_ascii raw = true ->
+  client_receive cc raw = RStatus (process_grpc_status cc raw).
+Proof.
+  intros cc raw H. unfold client_receive, h2_decode_headers. unfold headers_ascii in H.
+  rewrite H. reflexivity.
+Qed.
+
+(* ... but not every block of bytes does: a raw (unescaped) UTF-8 grpc-message makes h2 raise
+   UnicodeDecodeError, which costs the connection and the status of the call *)
+Lemma receive_total_refuted :
+  exists raw, forallb (fun kv => bytes_ok (fst kv) && bytes_ok (snd kv)) raw = true /\
+              client_receive true raw = RConnError.
+Proof.
+  exists [(grpc_status_key, [53]); (grpc_message_key, [195; 169])].
+  split; vm_compute; reflexivity.
+Qed.
+
+(* whenever the client does return a status with a message, that message is a valid str *)
+Lemma received_message_valid :
+  forall cc raw st m det,
+  client_receive cc raw = RStatus (CStatus st (Some m) det) -> scalars_ok m = true.
+Proof.
+  intros cc raw st m det H. unfold client_receive, h2_decode_headers in H.
+  destruct (forallb (fun kv => ascii_ok (fst kv) && ascii_ok (snd kv)) raw) eqn:Ha; [|discriminate].
+  injection H as H. unfold process_grpc_status in H.
+  destruct (assoc_last grpc_status_key raw) as [v|]; [|discriminate].
+  destruct (negb (ascii_ok v)); [discriminate|].
+  destruct (py_int v) as [n|]; [|discriminate].
+  destruct (negb (is_status_member n)); [discriminate|].
+  destruct (n =? status_ok); [discriminate|].
+  destruct (assoc_last grpc_message_key raw) as [mv|] eqn:Hm; [|discriminate].
+  injection H as _ Hmsg _. subst m.
+  apply decode_yields_valid_str.
+  (* the value found by the lookup is one of the ASCII values *)
+  clear - Ha Hm. induction raw as [|[k v] raw IH]; [discriminate|].
+  cbn [forallb fst snd] in Ha. apply andb_true_iff in Ha as [Hkv Hr].
+  cbn [assoc_last] in Hm. destruct (assoc_last grpc_message_key raw) as [v'|] eqn:E.
+  - injection Hm as <-. apply IH; [exact Hr | reflexivity].
+  - destruct (zlist_eqb grpc_message_key k); [|discriminate].
+    injection Hm as <-. apply andb_true_iff in Hkv as [_ Hv]. exact Hv.
+Qed.
+
+(* the model's tables are the ones in the source *)
+Lemma source_facts :
+  unquoted = map Z.of_nat (seq 32 5) ++ map Z.of_nat (seq 38 89) /\
+  length status_members = 17%nat /\ status_ok = 0 /\
+  status_values = map Z.of_nat (seq 0 17) /\
+  status_details_key = s2z "grpc-status-details-bin".
+Proof. vm_compute. repeat split; reflexivity. Qed.
